@@ -15,7 +15,10 @@ CONSTANTS Callers,      \* caller processes (strings)
           MaxFaults,    \* environment budget: connection deaths + not-serving answers + a split
           AllowClose, AllowSplit,
           StartCached,  \* TRUE: the region is in the cache and established at the start; FALSE: nobody knows it yet (findRegion)
-          MarkBeforePut \* findRegion marks the fresh region unavailable BEFORE publishing it in the cache (TRUE = the code)
+          MarkBeforePut, \* findRegion marks the fresh region unavailable BEFORE publishing it in the cache (TRUE = the code)
+          AllowReplace,  \* the cluster may split the region for good: requests naming it are answered "not serving" from then on and the
+                         \* establisher's lookup returns ANOTHER region, which it puts into the cache in place of this one
+          DelBeforeAvail \* ... dropping this region's connection BEFORE releasing the waiters (TRUE = the code)
 
 Ests == 1..MaxEst
 Conns == 1..(MaxFaults + 2)
@@ -31,9 +34,11 @@ VARIABLES
   epc, ecl,        \* establishers: control point ("free" = slot unused), client in hand
   faults, nsre,    \* environment: budget used; the region answers "not serving" to the next request
   cdone,           \* the client was closed
-  inCache          \* the region object is published in the regions cache
+  inCache,         \* the region object is published in the regions cache
+  stale,           \* the cluster has replaced the region (split / merge): nobody serves it any more
+  relGen           \* the channel generation closed by the establisher that replaced the region in the cache (0 = none)
 
-vars == <<avail, nextGen, closedGens, client, connUp, cached, dead, panicked, cpc, cwait, ccl, epc, ecl, faults, nsre, cdone, inCache>>
+vars == <<avail, nextGen, closedGens, client, connUp, cached, dead, panicked, cpc, cwait, ccl, epc, ecl, faults, nsre, cdone, inCache, stale, relGen>>
 
 Init ==
   /\ avail = 0 /\ nextGen = 1 /\ closedGens = {}
@@ -44,6 +49,7 @@ Init ==
   /\ cpc = [c \in Callers |-> "start"] /\ cwait = [c \in Callers |-> 0] /\ ccl = [c \in Callers |-> 0]
   /\ epc = [e \in Ests |-> "free"] /\ ecl = [e \in Ests |-> 0]
   /\ faults = 0 /\ nsre = FALSE /\ cdone = FALSE
+  /\ stale = FALSE /\ relGen = 0
 
 (* MarkUnavailable: TRUE iff it created the channel; the winner starts an establisher *)
 FreeSlot == CHOOSE e \in Ests : epc[e] = "free"
@@ -69,13 +75,13 @@ CStart(c) ==          \* region from the cache; first availability check
      ELSE IF dead THEN cpc' = [cpc EXCEPT ![c] = "relookup"] /\ UNCHANGED cwait     \* the cache no longer returns a dead region
      ELSE IF avail # 0 THEN cpc' = [cpc EXCEPT ![c] = "wait1"] /\ cwait' = [cwait EXCEPT ![c] = avail]
      ELSE cpc' = [cpc EXCEPT ![c] = "getc"] /\ UNCHANGED cwait
-  /\ UNCHANGED <<avail, nextGen, closedGens, client, connUp, cached, dead, panicked, ccl, epc, ecl, faults, nsre, cdone, inCache>>
+  /\ UNCHANGED <<avail, nextGen, closedGens, client, connUp, cached, dead, panicked, ccl, epc, ecl, faults, nsre, cdone, inCache, stale, relGen>>
 
 CWait(c, from, to) ==   \* select { ctx (not modelled here) ; c.done ; <-ch }
   /\ cpc[c] = from
   /\ \/ cwait[c] \in closedGens /\ cpc' = [cpc EXCEPT ![c] = to]
      \/ cdone /\ cpc' = [cpc EXCEPT ![c] = "done"]
-  /\ UNCHANGED <<avail, nextGen, closedGens, client, connUp, cached, dead, panicked, cwait, ccl, epc, ecl, faults, nsre, cdone, inCache>>
+  /\ UNCHANGED <<avail, nextGen, closedGens, client, connUp, cached, dead, panicked, cwait, ccl, epc, ecl, faults, nsre, cdone, inCache, stale, relGen>>
 
 CGetClient(c) ==      \* client := reg.Client(); nil -> MarkUnavailable [+ establisher]
   /\ cpc[c] = "getc"
@@ -83,46 +89,46 @@ CGetClient(c) ==      \* client := reg.Client(); nil -> MarkUnavailable [+ estab
      THEN /\ ccl' = [ccl EXCEPT ![c] = client] /\ cpc' = [cpc EXCEPT ![c] = "send"]
           /\ UNCHANGED <<avail, nextGen, client, epc>>
      ELSE /\ MarkUnavailableAndSpawn(FALSE) /\ cpc' = [cpc EXCEPT ![c] = "rechk"] /\ UNCHANGED ccl
-  /\ UNCHANGED <<closedGens, connUp, cached, dead, panicked, cwait, ecl, faults, nsre, cdone, inCache>>
+  /\ UNCHANGED <<closedGens, connUp, cached, dead, panicked, cwait, ecl, faults, nsre, cdone, inCache, stale, relGen>>
 
 CRecheck(c) ==        \* second AvailabilityChan() read
   /\ cpc[c] = "rechk"
   /\ IF avail # 0 THEN cpc' = [cpc EXCEPT ![c] = "wait2"] /\ cwait' = [cwait EXCEPT ![c] = avail]
      ELSE cpc' = [cpc EXCEPT ![c] = "after2"] /\ UNCHANGED cwait
-  /\ UNCHANGED <<avail, nextGen, closedGens, client, connUp, cached, dead, panicked, ccl, epc, ecl, faults, nsre, cdone, inCache>>
+  /\ UNCHANGED <<avail, nextGen, closedGens, client, connUp, cached, dead, panicked, ccl, epc, ecl, faults, nsre, cdone, inCache, stale, relGen>>
 
 CAfter2(c) ==         \* dead -> look up again; client still nil -> loop; else go
   /\ cpc[c] = "after2"
   /\ IF dead THEN cpc' = [cpc EXCEPT ![c] = "relookup"] /\ UNCHANGED ccl
      ELSE IF client = 0 THEN cpc' = [cpc EXCEPT ![c] = "start"] /\ UNCHANGED ccl
      ELSE ccl' = [ccl EXCEPT ![c] = client] /\ cpc' = [cpc EXCEPT ![c] = "send"]
-  /\ UNCHANGED <<avail, nextGen, closedGens, client, connUp, cached, dead, panicked, cwait, epc, ecl, faults, nsre, cdone, inCache>>
+  /\ UNCHANGED <<avail, nextGen, closedGens, client, connUp, cached, dead, panicked, cwait, epc, ecl, faults, nsre, cdone, inCache, stale, relGen>>
 
 CSend(c) ==           \* the request over the client in hand: ok / connection dead / region not serving
   /\ cpc[c] = "send"
   /\ IF ~connUp[ccl[c]] THEN cpc' = [cpc EXCEPT ![c] = "srverr"] /\ UNCHANGED nsre
-     ELSE IF nsre \/ dead THEN cpc' = [cpc EXCEPT ![c] = "nsrerr"] /\ nsre' = FALSE
+     ELSE IF nsre \/ dead \/ stale THEN cpc' = [cpc EXCEPT ![c] = "nsrerr"] /\ nsre' = FALSE
      ELSE cpc' = [cpc EXCEPT ![c] = "done"] /\ UNCHANGED nsre
-  /\ UNCHANGED <<avail, nextGen, closedGens, client, connUp, cached, dead, panicked, cwait, ccl, epc, ecl, faults, cdone, inCache>>
+  /\ UNCHANGED <<avail, nextGen, closedGens, client, connUp, cached, dead, panicked, cwait, ccl, epc, ecl, faults, cdone, inCache, stale, relGen>>
 
 CNotServing(c) ==     \* handleResultError(NotServingRegionError)
   /\ cpc[c] = "nsrerr"
   /\ MarkUnavailableAndSpawn(FALSE) /\ cpc' = [cpc EXCEPT ![c] = "start"]
-  /\ UNCHANGED <<closedGens, connUp, cached, dead, panicked, cwait, ccl, ecl, faults, nsre, cdone, inCache>>
+  /\ UNCHANGED <<closedGens, connUp, cached, dead, panicked, cwait, ccl, ecl, faults, nsre, cdone, inCache, stale, relGen>>
 
 CClientDown1(c) ==    \* clientDown: the connection leaves the cache ...
   /\ cpc[c] = "srverr"
   /\ cached' = IF cached = ccl[c] THEN 0 ELSE cached
   /\ cpc' = [cpc EXCEPT ![c] = "down2"]
-  /\ UNCHANGED <<avail, nextGen, closedGens, client, connUp, dead, panicked, cwait, ccl, epc, ecl, faults, nsre, cdone, inCache>>
+  /\ UNCHANGED <<avail, nextGen, closedGens, client, connUp, dead, panicked, cwait, ccl, epc, ecl, faults, nsre, cdone, inCache, stale, relGen>>
 CClientDown2(c) ==    \* ... then the region is marked (SetClient(nil) only by the one who marks)
   /\ cpc[c] = "down2"
   /\ MarkUnavailableAndSpawn(TRUE) /\ cpc' = [cpc EXCEPT ![c] = "start"]
-  /\ UNCHANGED <<closedGens, connUp, cached, dead, panicked, cwait, ccl, ecl, faults, nsre, cdone, inCache>>
+  /\ UNCHANGED <<closedGens, connUp, cached, dead, panicked, cwait, ccl, ecl, faults, nsre, cdone, inCache, stale, relGen>>
 
 CRelookup(c) ==       \* a replaced region: the request goes on with the new region (outside this model)
   /\ cpc[c] = "relookup" /\ cpc' = [cpc EXCEPT ![c] = "done"]
-  /\ UNCHANGED <<avail, nextGen, closedGens, client, connUp, cached, dead, panicked, cwait, ccl, epc, ecl, faults, nsre, cdone, inCache>>
+  /\ UNCHANGED <<avail, nextGen, closedGens, client, connUp, cached, dead, panicked, cwait, ccl, epc, ecl, faults, nsre, cdone, inCache, stale, relGen>>
 
 (* findRegion: look the region up in hbase:meta (every caller that misses gets its own fresh object; only the one whose *)
 (* put wins matters - it is THE region object of this model; the others find it in the cache on their retry), mark it  *)
@@ -131,24 +137,24 @@ FinderBusy == \E d \in Callers : cpc[d] \in {"fput", "fmark", "fspawn"}
 CLookup(c) ==
   /\ cpc[c] = "miss"
   /\ cpc' = [cpc EXCEPT ![c] = IF cdone THEN "done" ELSE "found"]
-  /\ UNCHANGED <<avail, nextGen, closedGens, client, connUp, cached, dead, panicked, cwait, ccl, epc, ecl, faults, nsre, cdone, inCache>>
+  /\ UNCHANGED <<avail, nextGen, closedGens, client, connUp, cached, dead, panicked, cwait, ccl, epc, ecl, faults, nsre, cdone, inCache, stale, relGen>>
 CFound(c) ==
   /\ cpc[c] = "found" /\ ~FinderBusy
-  /\ IF inCache THEN cpc' = [cpc EXCEPT ![c] = "start"] /\ UNCHANGED <<avail, nextGen, inCache>>   \* put: same region already cached, retry
+  /\ IF inCache THEN cpc' = [cpc EXCEPT ![c] = "start"] /\ UNCHANGED <<avail, nextGen, inCache, stale, relGen>>   \* put: same region already cached, retry
      ELSE IF MarkBeforePut THEN /\ avail' = nextGen /\ nextGen' = nextGen + 1 /\ cpc' = [cpc EXCEPT ![c] = "fput"] /\ UNCHANGED inCache
      ELSE inCache' = TRUE /\ cpc' = [cpc EXCEPT ![c] = "fmark"] /\ UNCHANGED <<avail, nextGen>>
-  /\ UNCHANGED <<closedGens, client, connUp, cached, dead, panicked, cwait, ccl, epc, ecl, faults, nsre, cdone>>
+  /\ UNCHANGED <<closedGens, client, connUp, cached, dead, panicked, cwait, ccl, epc, ecl, faults, nsre, cdone, stale, relGen>>
 CFPut(c) ==
   /\ cpc[c] = "fput" /\ inCache' = TRUE /\ cpc' = [cpc EXCEPT ![c] = "fspawn"]
-  /\ UNCHANGED <<avail, nextGen, closedGens, client, connUp, cached, dead, panicked, cwait, ccl, epc, ecl, faults, nsre, cdone>>
+  /\ UNCHANGED <<avail, nextGen, closedGens, client, connUp, cached, dead, panicked, cwait, ccl, epc, ecl, faults, nsre, cdone, stale, relGen>>
 CFMark(c) ==          \* reg.MarkUnavailable() with the result ignored
   /\ cpc[c] = "fmark" /\ cpc' = [cpc EXCEPT ![c] = "fspawn"]
   /\ IF avail = 0 THEN avail' = nextGen /\ nextGen' = nextGen + 1 ELSE UNCHANGED <<avail, nextGen>>
-  /\ UNCHANGED <<closedGens, client, connUp, cached, dead, panicked, cwait, ccl, epc, ecl, faults, nsre, cdone, inCache>>
+  /\ UNCHANGED <<closedGens, client, connUp, cached, dead, panicked, cwait, ccl, epc, ecl, faults, nsre, cdone, inCache, stale, relGen>>
 CFSpawn(c) ==         \* go establishRegion(reg, addr): the address is known, the first round needs no lookup
   /\ cpc[c] = "fspawn" /\ HasSlot
   /\ epc' = [epc EXCEPT ![FreeSlot] = "put"] /\ cpc' = [cpc EXCEPT ![c] = "start"]
-  /\ UNCHANGED <<avail, nextGen, closedGens, client, connUp, cached, dead, panicked, cwait, ccl, ecl, faults, nsre, cdone, inCache>>
+  /\ UNCHANGED <<avail, nextGen, closedGens, client, connUp, cached, dead, panicked, cwait, ccl, ecl, faults, nsre, cdone, inCache, stale, relGen>>
 
 Caller(c) == \/ CLookup(c) \/ CFound(c) \/ CFPut(c) \/ CFMark(c) \/ CFSpawn(c)
              \/ CStart(c) \/ CWait(c, "wait1", "getc") \/ CGetClient(c) \/ CRecheck(c) \/ CWait(c, "wait2", "after2") \/ CAfter2(c)
@@ -160,55 +166,73 @@ ESleep(e) ==          \* sleepAndIncreaseBackoff(reg.Context()): a dead region g
   /\ epc[e] = "sleep"
   /\ IF dead THEN MarkAvailable /\ epc' = [epc EXCEPT ![e] = "free"]
      ELSE epc' = [epc EXCEPT ![e] = "lookup"] /\ UNCHANGED <<avail, closedGens, panicked>>
-  /\ UNCHANGED <<nextGen, client, connUp, cached, dead, cpc, cwait, ccl, ecl, faults, nsre, cdone, inCache>>
+  /\ UNCHANGED <<nextGen, client, connUp, cached, dead, cpc, cwait, ccl, ecl, faults, nsre, cdone, inCache, stale, relGen>>
 ELookup(e) ==         \* closed client: return without releasing; dead meanwhile: release; else the same region
   /\ epc[e] = "lookup"
   /\ IF dead THEN MarkAvailable /\ epc' = [epc EXCEPT ![e] = "free"]
      ELSE IF cdone THEN epc' = [epc EXCEPT ![e] = "free"] /\ UNCHANGED <<avail, closedGens, panicked>>
+     ELSE IF stale THEN epc' = [epc EXCEPT ![e] = "rput"] /\ UNCHANGED <<avail, closedGens, panicked>>   \* the lookup names another region
      ELSE epc' = [epc EXCEPT ![e] = "put"] /\ UNCHANGED <<avail, closedGens, panicked>>
-  /\ UNCHANGED <<nextGen, client, connUp, cached, dead, cpc, cwait, ccl, ecl, faults, nsre, cdone, inCache>>
+  /\ UNCHANGED <<nextGen, client, connUp, cached, dead, cpc, cwait, ccl, ecl, faults, nsre, cdone, inCache, stale, relGen>>
 EPut(e) ==            \* clients.put: the cached connection of the server, or a new one (dialled at once here)
   /\ epc[e] = "put"
   /\ IF cached # 0 THEN ecl' = [ecl EXCEPT ![e] = cached] /\ UNCHANGED <<cached, connUp>>
      ELSE LET k == CHOOSE k \in Conns : ~connUp[k] /\ k # cached /\ \A c \in Callers : ccl[c] # k /\ k > 1 IN
           /\ ecl' = [ecl EXCEPT ![e] = k] /\ cached' = k /\ connUp' = [connUp EXCEPT ![k] = TRUE]
   /\ epc' = [epc EXCEPT ![e] = "probe"]
-  /\ UNCHANGED <<avail, nextGen, closedGens, client, dead, panicked, cpc, cwait, ccl, faults, nsre, cdone, inCache>>
+  /\ UNCHANGED <<avail, nextGen, closedGens, client, dead, panicked, cpc, cwait, ccl, faults, nsre, cdone, inCache, stale, relGen>>
 EProbe(e) ==          \* dead connection -> clientDown and again; region not serving -> again; ok -> SetClient
   /\ epc[e] = "probe"
   /\ IF ~connUp[ecl[e]] THEN /\ cached' = (IF cached = ecl[e] THEN 0 ELSE cached) /\ epc' = [epc EXCEPT ![e] = "sleep"]
                              /\ UNCHANGED <<client, nsre>>
-     ELSE IF nsre THEN nsre' = FALSE /\ epc' = [epc EXCEPT ![e] = "sleep"] /\ UNCHANGED <<client, cached>>
+     ELSE IF nsre \/ stale THEN nsre' = FALSE /\ epc' = [epc EXCEPT ![e] = "sleep"] /\ UNCHANGED <<client, cached>>
      ELSE client' = ecl[e] /\ epc' = [epc EXCEPT ![e] = "release"] /\ UNCHANGED <<cached, nsre>>
-  /\ UNCHANGED <<avail, nextGen, closedGens, connUp, dead, panicked, cpc, cwait, ccl, ecl, faults, cdone, inCache>>
+  /\ UNCHANGED <<avail, nextGen, closedGens, connUp, dead, panicked, cpc, cwait, ccl, ecl, faults, cdone, inCache, stale, relGen>>
 ERelease(e) ==        \* the window between SetClient and MarkAvailable ends here
   /\ epc[e] = "release"
   /\ MarkAvailable /\ epc' = [epc EXCEPT ![e] = "free"]
-  /\ UNCHANGED <<nextGen, client, connUp, cached, dead, cpc, cwait, ccl, ecl, faults, nsre, cdone, inCache>>
-Est(e) == ESleep(e) \/ ELookup(e) \/ EPut(e) \/ EProbe(e) \/ ERelease(e)
+  /\ UNCHANGED <<nextGen, client, connUp, cached, dead, cpc, cwait, ccl, ecl, faults, nsre, cdone, inCache, stale, relGen>>
+(* the lookup returned another region (this one was split or merged away): regions.put(new) marks this one dead; its      *)
+(* connection is dropped (clients.del: SetClient(nil)) and the waiters are released to look the key up again - in that   *)
+(* order, or a released waiter still finds a connection on the dead region and sends its request there                   *)
+ERPut(e) ==
+  /\ epc[e] = "rput" /\ dead' = TRUE
+  /\ epc' = [epc EXCEPT ![e] = IF DelBeforeAvail THEN "rdel" ELSE "ravail"]
+  /\ UNCHANGED <<avail, nextGen, closedGens, client, connUp, cached, panicked, cpc, cwait, ccl, ecl, faults, nsre, cdone, inCache, stale, relGen>>
+ERDel(e) ==
+  /\ epc[e] = "rdel" /\ client' = 0
+  /\ epc' = [epc EXCEPT ![e] = IF DelBeforeAvail THEN "ravail" ELSE "free"]
+  /\ UNCHANGED <<avail, nextGen, closedGens, connUp, cached, dead, panicked, cpc, cwait, ccl, ecl, faults, nsre, cdone, inCache, stale, relGen>>
+ERAvail(e) ==
+  /\ epc[e] = "ravail" /\ relGen' = avail /\ MarkAvailable
+  /\ epc' = [epc EXCEPT ![e] = IF DelBeforeAvail THEN "free" ELSE "rdel"]
+  /\ UNCHANGED <<nextGen, client, connUp, cached, dead, cpc, cwait, ccl, ecl, faults, nsre, cdone, inCache, stale>>
+Est(e) == ESleep(e) \/ ELookup(e) \/ EPut(e) \/ EProbe(e) \/ ERelease(e) \/ ERPut(e) \/ ERDel(e) \/ ERAvail(e)
 
 ----------------------------------------------------------------------------
 (* environment *)
 ConnDies == /\ faults < MaxFaults /\ \E k \in Conns : connUp[k] /\ connUp' = [connUp EXCEPT ![k] = FALSE]
             /\ faults' = faults + 1
-            /\ UNCHANGED <<avail, nextGen, closedGens, client, cached, dead, panicked, cpc, cwait, ccl, epc, ecl, nsre, cdone, inCache>>
+            /\ UNCHANGED <<avail, nextGen, closedGens, client, cached, dead, panicked, cpc, cwait, ccl, epc, ecl, nsre, cdone, inCache, stale, relGen>>
 NotServingOnce == /\ faults < MaxFaults /\ ~nsre /\ nsre' = TRUE /\ faults' = faults + 1
-                  /\ UNCHANGED <<avail, nextGen, closedGens, client, connUp, cached, dead, panicked, cpc, cwait, ccl, epc, ecl, cdone, inCache>>
+                  /\ UNCHANGED <<avail, nextGen, closedGens, client, connUp, cached, dead, panicked, cpc, cwait, ccl, epc, ecl, cdone, inCache, stale, relGen>>
 Split == /\ AllowSplit /\ faults < MaxFaults /\ ~dead /\ dead' = TRUE /\ faults' = faults + 1   \* cache put of a daughter: MarkDead
-         /\ UNCHANGED <<avail, nextGen, closedGens, client, connUp, cached, panicked, cpc, cwait, ccl, epc, ecl, nsre, cdone, inCache>>
+         /\ UNCHANGED <<avail, nextGen, closedGens, client, connUp, cached, panicked, cpc, cwait, ccl, epc, ecl, nsre, cdone, inCache, stale, relGen>>
+Replaced == /\ AllowReplace /\ faults < MaxFaults /\ ~stale /\ ~dead /\ stale' = TRUE /\ faults' = faults + 1
+            /\ UNCHANGED <<avail, nextGen, closedGens, client, connUp, cached, dead, panicked, cpc, cwait, ccl, epc, ecl, nsre, cdone, inCache, relGen>>
 (* a caller of ANOTHER region that shares the connection notices its death first and takes it out of the cache *)
 OtherRegionDown == /\ cached # 0 /\ ~connUp[cached] /\ cached' = 0
-                   /\ UNCHANGED <<avail, nextGen, closedGens, client, connUp, dead, panicked, cpc, cwait, ccl, epc, ecl, faults, nsre, cdone, inCache>>
+                   /\ UNCHANGED <<avail, nextGen, closedGens, client, connUp, dead, panicked, cpc, cwait, ccl, epc, ecl, faults, nsre, cdone, inCache, stale, relGen>>
 Close == /\ AllowClose /\ ~cdone /\ cdone' = TRUE
          /\ (IF avail = 0 THEN avail' = nextGen /\ nextGen' = nextGen + 1 ELSE UNCHANGED <<avail, nextGen>>)   \* closeAll marks, nobody establishes
          /\ client' = 0
-         /\ UNCHANGED <<closedGens, connUp, cached, dead, panicked, cpc, cwait, ccl, epc, ecl, faults, nsre, inCache>>
+         /\ UNCHANGED <<closedGens, connUp, cached, dead, panicked, cpc, cwait, ccl, epc, ecl, faults, nsre, inCache, stale, relGen>>
 AllDone == \A c \in Callers : cpc[c] = "done"
 Terminated == AllDone /\ (\A e \in Ests : epc[e] = "free") /\ UNCHANGED vars
 
 Next == \/ \E c \in Callers : Caller(c)
         \/ \E e \in Ests : Est(e)
-        \/ ConnDies \/ NotServingOnce \/ Split \/ Close \/ OtherRegionDown \/ Terminated
+        \/ ConnDies \/ NotServingOnce \/ Split \/ Replaced \/ Close \/ OtherRegionDown \/ Terminated
 Spec == Init /\ [][Next]_vars
 
 ----------------------------------------------------------------------------
@@ -217,5 +241,8 @@ OneEstablisher == Cardinality({e \in Ests : epc[e] # "free"}) <= 1
 EstablisherOnlyWhileUnavailable == (\E e \in Ests : epc[e] # "free") => avail # 0
 (* nobody is stranded: every state without a successor (TLC's deadlock check) is the terminated one; and at the end *)
 (* the region is available unless it was replaced or the client closed                                            *)
+(* C01 under a layout change: a caller that waited for the region and was released by the establisher that had just put   *)
+(* the replacement into the cache is routed from the cache - it never sends its request to the replaced region           *)
+NoSendAfterReplace == \A c \in Callers : ~(cpc[c] = "send" /\ relGen # 0 /\ cwait[c] = relGen)
 StableEnd == (AllDone /\ \A e \in Ests : epc[e] = "free") => (avail = 0 \/ cdone)
 =============================================================================
